@@ -162,8 +162,8 @@ theorem insertHit_mem (h x : Hit ℝ) (l : List (Hit ℝ)) : x ∈ insertHit h l
   | cons y ys ih =>
     simp only [insertHit]
     split
-    · simp
     · simp only [List.mem_cons, ih]; tauto
+    · simp
 
 theorem insertHit_sorted (h : Hit ℝ) (l : List (Hit ℝ)) (hs : Sorted l) : Sorted (insertHit h l) := by
   induction l with
